@@ -38,6 +38,30 @@ fn main() {
         "total-gen" => total::gen(&arg(2), &arg(3), num(4, 200)),
         "total-worker" => total::worker(),
         "lib-table" => libtable::run(&arg(2)),
+        // one translation of a file, for replaying a reported case by hand:
+        // xtv xlate <file> <from|detect> <to> <slice|all|fixedN>
+        "xlate" => {
+            let bytes = std::rc::Rc::new(std::fs::read(arg(2)).expect("input file"));
+            let from = util::fmt_by_name(&arg(3));
+            let to = util::fmt_by_name(&arg(4)).expect("target format");
+            let mut out = vec![];
+            let r = match arg(5).as_str() {
+                "slice" => xt::translate_slice(&bytes, from, to, &mut out),
+                m => {
+                    let sched = match m.strip_prefix("fixed") {
+                        Some(n) => rw::Sched::Fixed(n.parse().expect("read size")),
+                        None => rw::Sched::All,
+                    };
+                    xt::translate_reader(rw::SchedReader::new(bytes.clone(), sched, rw::new_log()), from, to, &mut out)
+                }
+            };
+            use std::io::Write;
+            std::io::stdout().write_all(&out).unwrap();
+            if let Err(e) = r {
+                eprintln!("error: {e}");
+                std::process::exit(1);
+            }
+        }
         "record-chunker" => chunk::record(&arg(2), num(3, 20), arg(4) != "nopanic"),
         "record-data" => data::record_translate(&arg(2), num(3, 30)),
         "record-hops" => data::record_hops(&arg(2), num(3, 30)),
